@@ -293,13 +293,25 @@ bool Instance::eval(const size_t argc, char* const* argv) {
         return false;
     }
     CScript::const_iterator it = script.begin();
-    while (it != script.end()) {
-        if (!StepScript(*env, it, &script)) {
-            fprintf(stderr, "Error: %s\n", ScriptErrorString(*env->serror).c_str());
-            return false;
+    const CScript::const_iterator codehash_before = env->pbegincodehash;
+    bool ok = true;
+    try {
+        while (ok && it != script.end()) {
+            if (!StepScript(*env, it, &script)) {
+                fprintf(stderr, "Error: %s\n", ScriptErrorString(*env->serror).c_str());
+                ok = false;
+            }
         }
+    } catch (const std::exception& ex) {
+        fprintf(stderr, "Error: exception thrown: %s\n", ex.what());
+        ok = false;
     }
-    return true;
+    if (env->pbegincodehash != codehash_before) {
+        // an executed OP_CODESEPARATOR pointed into the temporary script above;
+        // it takes effect as if it stood at the current position of the real script
+        env->pbegincodehash = env->pc;
+    }
+    return ok;
 }
 
 bool Instance::configure_tx_txin() {
